@@ -19,7 +19,7 @@ ASSUMPTIONS = ["thresholds: |z| <= 6.5 for means / covariances / proportions (fa
                "valid proportions are dyadic so that their floating-point sum is exactly 1 (the code tests equality)"]
 EVAL_COUNTER = "calls"
 REQUIRED = {"quick": {"calls": 60, "gmm_calls": 25, "gmm_1d_calls": 5, "student_calls": 8, "gstm_calls": 6, "celeux_one_calls": 6,
-                      "celeux_two_calls": 6, "z_tests": 1500, "ks_tests": 30, "invalid_rejected": 12, "indefinite_covariances_tried": 40, "determinism_checks": 60},
+                      "celeux_two_calls": 6, "z_tests": 1500, "ks_tests": 30, "invalid_rejected": 12, "indefinite_covariances_tried": 40, "determinism_checks": 60, "gmm_other_unit_calls": 3},
             "thorough": {"calls": 500, "z_tests": 12000}}
 SHARD_TIMEOUT = {"quick": 1200, "thorough": 7000}
 ZMAX = 6.5
@@ -195,6 +195,13 @@ def run_case(case, ctx, st):
                 ctx.count("gmm_1d_calls")
             else:
                 covs = [spd(rng, d) for _ in range(K)]
+                if rng.random() < 0.3:
+                    # the same mixture recorded in another unit (nanometres, thousands): a covariance is what it is at
+                    # every magnitude, correlated coordinates stay correlated
+                    unit = 10.0 ** int(rng.integers(-12, 7))
+                    covs = [c * unit for c in covs]
+                    means = means * math.sqrt(unit)
+                    ctx.count("gmm_other_unit_calls")
                 scale_arg = covs
             ctx.case = dict(case, generator="draw_gmm", d=d, K=K, n=n, props=props, means=means, scale=[c.tolist() for c in covs], rs=seed)
             loc_arg, pv_arg = means.tolist(), props
@@ -231,6 +238,11 @@ def run_case(case, ctx, st):
                 B = rng.normal(size=(d, r))
                 S = B @ B.T
                 ctx.count("student_singular_scale_calls")
+            if rng.random() < 0.3:
+                unit = 10.0 ** int(rng.integers(-12, 7))
+                S = S * unit
+                loc = loc * math.sqrt(unit)
+                ctx.count("student_other_unit_calls")
             ctx.case = dict(case, generator="multivariate_student_t", d=d, df=df, n=n, loc=loc, scale=S.tolist(), rs=seed)
             S_before, loc_before = S.copy(), loc.copy()
             X = twice(lambda: multivariate_student_t(n, loc if i % 2 else loc.tolist(), S, df=df, random_state=seed))
